@@ -9,7 +9,7 @@ From ClapModel Require Import ParseProofs.Actions ParseProofs.Unparse ParseProof
                               ParseProofs.UnparseExamples.
 From ClapModel Require Import Base.Utf8 Lex.OsStrExtModel Lex.OsStrExtProofs ParseProofs.UnparseLift.
 From ClapModel Require Import ParseProofs.UnparseX ParseProofs.UnparseXProofs ParseProofs.UnparseXTree ParseProofs.UnparseXExamples.
-From ClapModel Require Import ParseProofs.Globals ParseProofs.UnparseGlobals.
+From ClapModel Require Import ParseProofs.Globals ParseProofs.UnparseGlobals ParseProofs.Spelling ParseProofs.UnparsePending.
 From Coq Require Import ZArith Sorting.Sorted Sorting.Permutation List.
 Import ListNotations.
 Open Scope N_scope.
@@ -642,3 +642,54 @@ Theorem C02_unparse_globals_nonvacuous :
       GlobEx.raw_of [113] mp = Some [[s_true]] /\ GlobEx.raw_of [120] smp = Some [[s_true]].
 Proof. split; [exact GlobEx.ex_hyps|exact GlobEx.ex_run]. Qed.
 Print Assumptions C02_unparse_globals_nonvacuous.
+
+(** (5) THE PENDING BUFFER AND THE VALUE RANGE, for ALL commands (ParseProofs/UnparsePending.v).
+    Planned (DESIGN section 5): [C02_pending_bounded : the pending buffer never exceeds num_args.max].  As a statement about
+    every intermediate state of the loop it is FALSE for multi-valued positionals ([C02_pending_positional_refuted]: the
+    run of a positional is only counted when it is flushed).  Proved instead, for all commands, states and tokens:
+    (a) an option occurrence opened without a value starts empty; (b) the loop's value branch appends exactly the token
+    and keeps the option open iff the new length is strictly below the maximum -- so from below the maximum the buffer
+    reaches at most the maximum ([_partial]: the step, not yet folded into one invariant of [parse_loop] over arbitrary
+    token lists; for rendered lines the buffer between items is explicit in [C02_unparse_loop]/[_x]: [set_pending] with at most
+    [num_args.max] values); (c) whatever is flushed from the command line and accepted has min <= #values <= max. *)
+Theorem C02_pending_open_empty : forall c idn attached a has_eq st st' i,
+  parse_opt_value c idn attached a has_eq st = ROk (st', PROpt i) ->
+  i = a_id a /\ mt_pending (mt st') = Some (mkPending (a_id a) (Some idn) [] None).
+Proof. exact pending_open_empty. Qed.
+Print Assumptions C02_pending_open_empty.
+
+Theorem C02_pending_bounded_partial : forall c i tok st st' more p a r,
+  mt_pending (mt st) = Some p -> p_id p = i -> find_arg c i = Some a -> a_id a = i -> a_num a = Some r ->
+  N.of_nat (length (p_raw p)) < vmax r ->
+  take_value c i tok st = ROk (st', more) ->
+  exists p', mt_pending (mt st') = Some p' /\ p_id p' = i /\ p_raw p' = p_raw p ++ [tok] /\
+    N.of_nat (length (p_raw p')) <= vmax r /\
+    (more = true -> N.of_nat (length (p_raw p')) < vmax r) /\
+    (more = false -> N.of_nat (length (p_raw p')) = vmax r).
+Proof. exact take_value_bounded. Qed.
+Print Assumptions C02_pending_bounded_partial.
+
+Theorem C02_flushed_in_range : forall c idn a raw ti st x r, is_set s_ignore_errors c = false -> a_num a = Some r ->
+  react_core c idn SCmdLine a raw ti st = ROk x ->
+  vmin r <= N.of_nat (length raw) <= vmax r.
+Proof. exact flushed_in_range. Qed.
+Print Assumptions C02_flushed_in_range.
+
+(** [prog <f>{1..2}] on [a b c]: at the end of the loop three values are pending for [f]; the line is then rejected
+    (TooManyValues) -- the real crate gives the same answer on this line. *)
+Theorem C02_pending_positional_refuted : exists c toks st p a r,
+  assert_app c = true /\ parse_loop c toks (mkL PSValuesDone 1 false false) ps_new = ROk (LDone st) /\
+  mt_pending (mt st) = Some p /\ find_arg c (p_id p) = Some a /\ a_num a = Some r /\
+  vmax r < N.of_nat (length (p_raw p)) /\
+  (exists e s, get_matches_with 2 c toks ps_new = RErr e s /\ e_kind e = ETooManyValues).
+Proof. exact pending_positional_unbounded. Qed.
+Print Assumptions C02_pending_positional_refuted.
+
+(** Non-vacuity of the option side: [--mu <v>{1..2}]: after [--mu] nothing, after [--mu A] one, after [--mu A B] two values
+    pending; a third token is no longer the option's (here: rejected, there is no positional). *)
+Theorem C02_pending_nonvacuous :
+  PendOptEx.pend_after [[45; 45; 109; 117]] = Some [] /\ PendOptEx.pend_after [[45; 45; 109; 117]; [65]] = Some [[65]] /\
+  PendOptEx.pend_after [[45; 45; 109; 117]; [65]; [66]] = Some [[65]; [66]] /\
+  (exists e s, get_matches_with 2 PendOptEx.c [[45; 45; 109; 117]; [65]; [66]; [67]] ps_new = RErr e s /\ e_kind e = EUnknownArgument).
+Proof. exact PendOptEx.ex. Qed.
+Print Assumptions C02_pending_nonvacuous.
